@@ -118,6 +118,12 @@ Definition qg_distribute (n : qnode) : option qnode :=
   end.
 Definition qg_override (n : qnode) (cap : Q) (ta : list (nat * Q)) : qnode := sw_override n cap (qn_pt n) ta.
 
+(* reinit: Sewer.reinit empties the queue tank; Storage.reinit (QueueGroundwater) also puts the initial storage back, all of
+   it arrived *)
+Definition qn_reinit (n : qnode) (init : vqip) : qnode :=
+  let t := qt_reinit (qn_t n) in
+  qn_set_t n (mkQT (mkQS (s_cap (qt_s t)) init init init) (qt_l t)).
+
 (* close-out (temperature T is read by a decaying tank) *)
 Definition qn_end (n : qnode) (T : Q) : qnode := qn_set_t n (qt_end (qt_set_T (qn_t n) T)).
 
